@@ -1048,19 +1048,30 @@ func genCaptures(r *hx.Rng, tier string, firstID int) ([]string, []string) {
 	if tier == "thorough" {
 		n = 80
 	}
+	nLong := 2 // round 6: captures with 20..45 protected records in EACH direction (tiny Writes), both suites
+	if tier == "thorough" {
+		nLong = 8
+	}
+	rl := r // the long captures come after the n ordinary ones: their draws do not move those
 	var lines, obs []string
-	for i := 0; i < n; i++ {
+	for i := 0; i < n+nLong; i++ {
 		id := firstID + i
 		suiteName := []string{"gcm", "cbc"}[i%2]
 		var wC, wS []int
-		if suiteName == "cbc" {
+		if i >= n {
+			for _, w := range []*[]int{&wC, &wS} {
+				for k, m := 0, 20+rl.Intn(12); k < m; k++ {
+					*w = append(*w, rl.Pick([]int{1, 1, 2, 3, 16, 17, 40}))
+				}
+			}
+		} else if suiteName == "cbc" {
 			wC = []int{1 + r.Intn(400), r.Intn(3), r.Intn(200)}
 			wS = []int{1 + r.Intn(600)}
 		} else {
 			wC = []int{1 + r.Intn(300), r.Intn(5000), 1 + r.Intn(50)}
 			wS = []int{r.Intn(1500), 1 + r.Intn(100)}
 		}
-		if i%4 >= 2 {
+		if i < n && i%4 >= 2 {
 			wC, wS = wS, wC
 		}
 		ctx := &caseCtx{}
@@ -1337,6 +1348,53 @@ func gen(seed uint64, tier string) []string {
 			sc = strings.Join(script, ",")
 		}
 		lines = append(lines, fmt.Sprintf("S %d %s %s %d %s %s %s", id, suite, dir, pre, hx.Ints(writes), sc, hx.Ints(genBufs(r))))
+	}
+	return append(lines, genLong(hx.NewRng(seed+9091), tier, total+1)...)
+}
+
+// long histories (round 6): 40..75 protected records in ONE direction of one connection (many small Writes; the
+// sender has sent its Finished before, so these are protected records 2..76 of that direction), both suites, both
+// directions; all genuine, or one deviation behind the 17th record.  What is looked at on these: the explicit IV /
+// nonce of EVERY record of the history (pairwise distinct, GCM = sequence number), i.e. state the sender carries
+// across records and calls (pools, reused buffers, counters), besides the usual delivery checks.
+var longSizes = []int{1, 1, 2, 2, 3, 15, 16, 17, 33, 100, 300}
+var longKinds = []string{"dup", "swap", "flipIV", "flipBody", "dropMid", "o", "T", "hl"}
+
+func genLong(r *hx.Rng, tier string, firstID int) []string {
+	n := 8
+	if tier == "thorough" {
+		n = 48
+	}
+	combos := [][2]string{{"cbc", "c2s"}, {"cbc", "s2c"}, {"gcm", "c2s"}, {"gcm", "s2c"}}
+	var lines []string
+	for i := 0; i < n; i++ {
+		suite, dir := combos[i%4][0], combos[i%4][1]
+		target := 40 + r.Intn(36)
+		var writes []int
+		for len(predict(suite, writes)) < target {
+			writes = append(writes, r.Pick(longSizes))
+		}
+		bodies := predict(suite, writes)
+		nr := len(bodies)
+		script := grange(0, nr)
+		if (i/4)%2 == 1 {
+			p := 17 + r.Intn(nr-18)
+			switch kind := longKinds[r.Intn(len(longKinds))]; kind {
+			case "dup":
+				script = append(grange(0, p+1), gtok(p))
+				script = append(script, grange(p+1, nr)...)
+			case "swap":
+				script = append(grange(0, p), gtok(p+1), gtok(p))
+				script = append(script, grange(p+2, nr)...)
+			case "dropMid":
+				script = append(grange(0, p), grange(p+1, nr)...)
+			default:
+				script = append(grange(0, p), devEmit(r, kind, suite, p, bodies[p]))
+				script = append(script, grange(p+1, nr)...)
+			}
+		}
+		lines = append(lines, fmt.Sprintf("S %d %s %s %d %s %s %s", firstID+i, suite, dir, r.Pick([]int{1, 50, 2000}),
+			hx.Ints(writes), strings.Join(script, ","), hx.Ints(genBufs(r))))
 	}
 	return lines
 }
